@@ -223,9 +223,10 @@ func SnapMsg(r *Rec, m *sipsp.PSIPMsg, buf []byte) {
 			r.Val("len(Buf)", int64(len(m.Buf))-int64(r.Base))
 		}
 		r.Val("len(RawMsg)", int64(len(m.RawMsg)))
-		// RawMsg must be a view of the caller's buffer ending at len(Buf)
-		r.Bool("RawMsg aliases buf", aliasEnd(m.RawMsg, m.Buf))
+		// how RawMsg sits in the published Buf is compared only between runs that saw the same buffer
+		// (the extent of msg.Buf is not fixed by any property: see DESIGN 9.2b)
 		if !r.MaskBuf {
+			r.Bool("RawMsg aliases buf", aliasEnd(m.RawMsg, m.Buf))
 			r.Bool("Buf aliases buf", aliasStart(m.Buf, buf))
 		}
 	}
